@@ -115,6 +115,10 @@ func (r *Rng) webURL() *webURL {
 	return w
 }
 
+// the x of an inserted "x/..": any segment text that is not itself a dot segment (nor one after decoding), among them
+// texts that look like something else elsewhere (drive letters, scheme prefixes, escapes, delimiters of other components)
+var insertedSegs = []string{"x", "a-b", "q1", "y", "c:", "C:", "c|", "Z|", "C:x", "a:b", "http:", "a;b", "a=b", "@", "u@h", "%41", "%7e", "x%2Fy", "%25", "...", ".x", "x.", "~", "$&'()*+,", "0", "[::1]"}
+
 type spellOpts struct {
 	caseScheme, caseHost, defaultPort, dotSeg, tabNl, ws, emptyFrag bool
 	pct                                                             bool // hex case + optional / nested percent-encoding of unreserved characters
@@ -202,9 +206,9 @@ func (w *webURL) spell(r *Rng, o spellOpts, fixedSeed uint64) string {
 			case 1:
 				sb.WriteString("/" + r.Pick([]string{"%2e", "%2E"}))
 			case 2:
-				sb.WriteString("/" + r.Pick([]string{"x", "a-b", "q1"}) + "/..")
+				sb.WriteString("/" + r.Pick(insertedSegs) + "/..")
 			default:
-				sb.WriteString("/y/" + r.Pick([]string{"%2e%2E", ".%2e", "%2E.", ".."}))
+				sb.WriteString("/" + r.Pick(insertedSegs) + "/" + r.Pick([]string{"%2e%2E", ".%2e", "%2E.", ".."}))
 			}
 		}
 	}
